@@ -122,6 +122,9 @@ type Report struct {
 	Assume    []string
 	Samples   []any
 	HarnessErr []string
+	// MergePrefix: this run is a companion pass of a check whose main pass has already written
+	// the evidence file: its coverage keys get the prefix and are added to the existing file
+	MergePrefix string
 }
 
 func newReport(prop, tier, level string) *Report {
@@ -192,6 +195,9 @@ func (r *Report) finish() int {
 		cov["samples"] = r.Samples
 	}
 	cov["known_findings_matched"] = len(knownLines)
+	if r.MergePrefix != "" {
+		return r.finishMerged(violations)
+	}
 	ev := map[string]any{
 		"property_id": r.Prop,
 		"tier":        r.Tier,
@@ -205,6 +211,53 @@ func (r *Report) finish() int {
 	js, _ := json.MarshalIndent(ev, "", " ")
 	os.MkdirAll(filepath.Join(verifRoot, "evidence"), 0o755)
 	os.WriteFile(filepath.Join(verifRoot, "evidence", r.Prop+".json"), js, 0o644)
+	if len(r.HarnessErr) > 0 {
+		for _, e := range r.HarnessErr {
+			fmt.Fprintln(os.Stderr, "HARNESS-ERROR:", e)
+		}
+		return 2
+	}
+	if violations > 0 {
+		return 1
+	}
+	return 0
+}
+
+// finishMerged adds the companion pass to the evidence file the main pass has written.
+func (r *Report) finishMerged(violations int) int {
+	path := filepath.Join(verifRoot, "evidence", r.Prop+".json")
+	var ev map[string]any
+	if data, err := os.ReadFile(path); err != nil || json.Unmarshal(data, &ev) != nil {
+		r.HarnessErr = append(r.HarnessErr, "companion pass: the main pass has not written "+path)
+		ev = map[string]any{"property_id": r.Prop, "tier": r.Tier, "seed": seedFromEnv(), "level": r.Level, "coverage": map[string]any{}, "violations": 0.0, "wall_s": 0.0}
+	}
+	cov, _ := ev["coverage"].(map[string]any)
+	if cov == nil {
+		cov = map[string]any{}
+	}
+	for k, v := range r.Coverage {
+		if k == "samples" {
+			continue
+		}
+		cov[r.MergePrefix+k] = v
+	}
+	ev["coverage"] = cov
+	if v, ok := ev["violations"].(float64); ok {
+		ev["violations"] = int(v) + violations
+	} else {
+		ev["violations"] = violations
+	}
+	if w, ok := ev["wall_s"].(float64); ok {
+		ev["wall_s"] = w + time.Since(r.Start).Seconds()
+	}
+	if as, ok := ev["assumptions"].([]any); ok {
+		for _, a := range r.Assume {
+			as = append(as, a)
+		}
+		ev["assumptions"] = as
+	}
+	js, _ := json.MarshalIndent(ev, "", " ")
+	os.WriteFile(path, js, 0o644)
 	if len(r.HarnessErr) > 0 {
 		for _, e := range r.HarnessErr {
 			fmt.Fprintln(os.Stderr, "HARNESS-ERROR:", e)
